@@ -88,13 +88,28 @@ theorem fanout_nil (k : Kind) (e : Env) (hd : hasDest (dests k) = false) : fanou
   | some s => simp [h] at hs
   | none => rfl
 
-/-- number of responses the listener `match` of `notify_proxys` pushes -/
+/-- number of final statuses the second `match` of `notify_proxys` pushes: one for
+    a listener verb, and one refusal for any other kind no proxy answered -/
 def tailCount (k : Kind) : Nat :=
   match k with
   | .addHttpListener | .addHttpsListener | .addTcpListener | .addUdpListener
   | .updateHttpListener | .updateHttpsListener | .updateTcpListener | .updateUdpListener
   | .activateListener | .deactivateListener | .removeListener => 1
-  | _ => 0
+  | _ => if hasDest (dests k) then 0 else 1
+
+theorem aggregate_none (d : Dest) (r : ProxyResults) (h : hasDest d = false) :
+    aggregate d r = none := by
+  have := aggregate_isSome d r
+  rw [h] at this
+  cases hh : aggregate d r with
+  | none => rfl
+  | some s => simp [hh] at this
+
+theorem defaultTail_len (d : Dest) (r : ProxyResults) :
+    (finals (if (aggregate d r).isSome then [] else [Status.failure])).length
+      = if hasDest d then 0 else 1 := by
+  rw [aggregate_isSome]
+  cases hasDest d <;> simp [finals]
 
 theorem proxyOf_noProcessing (t : LType) (r : ProxyResults) (hp : NoProcessing r) :
     proxyOf t r ≠ .processing := by
@@ -113,7 +128,9 @@ theorem listenerTail_finals (k : Kind) (e : Env) (hp : NoProcessing e.proxies) :
     | some t =>
       have := proxyOf_noProcessing t e.proxies hp
       simp [finals_single, this]
-  all_goals simp [listenerTail, tailCount, finals_st]
+  all_goals first
+    | (simp only [listenerTail, tailCount]; exact defaultTail_len _ _)
+    | simp [listenerTail, tailCount, finals_st]
 
 /-- the explicit destination table (what `get_destinations` says today) -/
 def destCount (k : Kind) : Nat := if hasDest (dests k) then 1 else 0
